@@ -463,6 +463,11 @@ add("C05", "fixed", "raw-special:text-of-a-missing-value:debug", "with autoescap
 add("C12", "fixed", "contains:str~bool", "contains on a string haystack turned the needle into text with Python's str(): 'it is true' contains true was false (it looked for 'True')",
     [], "d9f5b4e")
 
+add("C19", "fixed", "global-not-reported:in-partial", "an extends (or include) inside a rendered partial was analysed in the root template's scope instead of the isolated scope of the render tag: names bound in "
+    "the root where the render tag stands hid the base template's reads of render arguments, and the base's assignments leaked into the root",
+    [{"kind": "matrix", "main": "{% for x in xs %}{% render 'child' %}{% endfor %}|{% render 'child' %}", "partials": {"child": "{% extends 'base' %}{% block b %}!{% endblock %}", "base": "<{{ x }}{% block b %}{% endblock %}>"},
+      "datas": [V.enc({"xs": [1, 2], "x": "GX"})], "async": False, "async_analysis": False}], "5156a88")
+
 if __name__ == "__main__":
     # further entries are appended by tools/mkfindings.py from triaged replay files and kept in findings_extra.json
     extra_path = os.path.join(VERIF, "tools", "findings_extra.json")
